@@ -2127,7 +2127,9 @@ func checkClose(c *checkCtx) {
 		"(message sizes, delays, blocked reader, fresh stream, background traffic, queue capacity, perturbation profile from PRNG(VERIF_SEED, scenario, timing)); "+
 		"one fresh session pair per execution; non-trivial = the execution had at least one foreign hook transition inside a close/callback-exit window "+
 		"(a hook of another goroutine between Close-enter/state-CAS/peer-notification or between the callback goroutine's store-0/re-check steps); "+
-		"distinct = distinct (scenario, hook-transition signature)", len(table), timings)
+		"distinct = distinct (scenario, hook-transition signature); plus three sub-checks with fixed counts per tier: aligned simultaneous closes (second Close released when the "+
+		"event loop pops the first one's notification), close-at-callback-exit storm (Close racing with the return of OnData, delay servoed to the crossing point and dithered; "+
+		"non-trivial = both outcomes 'callback still in process' and 'no callback in process' occurred), OnData blocked in ReadBytes/Peek/Discard for more than was sent when the peer closes", len(table), timings)
 	c.assume("client and server session live in one process (one event loop, one buffer manager object)")
 	c.assume("ErrStreamClosed and ErrEndOfStream both count as closed-stream errors; a Close issued while OnData runs completes when the callback goroutine ends " +
 		"(Flush fails at once, reads of already buffered bytes inside that OnData are exempt)")
